@@ -39,8 +39,8 @@ where
                 // blank working-set item here
                 new_ws.push(None);
             }
-        } else {
-            // This item was already None.
+        } else if !renumber {
+            // This item was already None, and stays so unless we are renumbering.
             new_ws.push(None);
         }
     }
